@@ -5,7 +5,7 @@ import json, os, re, subprocess, sys
 VERIF = os.path.dirname(os.path.dirname(os.path.abspath(__file__)))
 WT = os.environ.get('MATRIX_WT', '/tmp/matrix_wt')
 EXTRA = {'C20_1': ['C11'], 'C20_2': ['C15', 'C01'], 'C04_3': ['C12'], 'C03_1': ['C12'], 'C03_3': ['C10'], 'C01_3': ['C15'], 'C02_1': ['C15'], 'C02_3': ['C11', 'C20'], 'C10_3': ['C07'], 'C11_2': ['C14'], 'C13_2': ['C09'],
-         'C14_3': ['C11'], 'C12_1': ['C15', 'C16'], 'C06_3': ['C11'], 'C05_1': ['C12', 'C03'], 'C08_2': ['C10'], 'C07_2': ['C20'], 'C08_3': ['C20'], 'C20_3': ['C18'], 'C03_5': ['C16'], 'C02_4': ['C15'], 'C02_5': ['C01'], 'C10_5': ['C03'], 'C10_4': ['C06'], 'C20_4': ['C14'], 'C20_5': ['C01'], 'C20_6': ['C18'], 'C11_5': ['C14'], 'C12_6': ['C15'], 'C13_4': ['C14'], 'C01_8': ['C15'], 'C01_9': ['C11'], 'C02_7': ['C15'], 'C02_9': ['C01'], 'C03_7': ['C16'], 'C03_9': ['C05'], 'C05_8': ['C12'], 'C06_7': ['C11'], 'C07_8': ['C10'], 'C07_9': ['C11'], 'C08_8': ['C14'], 'C08_9': ['C11'], 'C10_7': ['C05'], 'C10_9': ['C03'], 'C13_9': ['C19'], 'C14_8': ['C11'], 'C11_7': ['C14'], 'C12_9': ['C15'], 'C03_10': ['C15'], 'C03_11': ['C15'], 'C03_12': ['C10'], 'C10_10': ['C03'], 'C11_10': ['C15'], 'C11_11': ['C15'], 'C11_12': ['C15'], 'C20_11': ['C11'], 'C20_12': ['C15'], 'C01_10': ['C15'], 'C02_10': ['C10'], 'C02_11': ['C15'], 'C02_12': ['C15'], 'C12_10': ['C15'], 'C12_12': ['C15'], 'C16_12': ['C15'], 'C04_11': ['C16'], 'C05_10': ['C03'], 'C05_11': ['C03'], 'C13_10': ['C15'], 'C13_11': ['C10'], 'C18_10': ['C03'], 'C18_11': ['C15'], 'C08_10': ['C11', 'C20'], 'C01_14': ['C11', 'C20'], 'C02_13': ['C15'], 'C10_14': ['C03'], 'C14_14': ['C13'], 'C11_13': ['C14'], 'C04_13': ['C06'], 'C04_14': ['C02', 'C01'], 'C03_13': ['C11'], 'C03_14': ['C05'], 'C12_13': ['C05'], 'C20_13': ['C11'], 'C20_14': ['C15', 'C01'], 'C18_14': ['C19']}
+         'C14_3': ['C11'], 'C12_1': ['C15', 'C16'], 'C06_3': ['C11'], 'C05_1': ['C12', 'C03'], 'C08_2': ['C10'], 'C07_2': ['C20'], 'C08_3': ['C20'], 'C20_3': ['C18'], 'C03_5': ['C16'], 'C02_4': ['C15'], 'C02_5': ['C01'], 'C10_5': ['C03'], 'C10_4': ['C06'], 'C20_4': ['C14'], 'C20_5': ['C01'], 'C20_6': ['C18'], 'C11_5': ['C14'], 'C12_6': ['C15'], 'C13_4': ['C14'], 'C01_8': ['C15'], 'C01_9': ['C11'], 'C02_7': ['C15'], 'C02_9': ['C01'], 'C03_7': ['C16'], 'C03_9': ['C05'], 'C05_8': ['C12'], 'C06_7': ['C11'], 'C07_8': ['C10'], 'C07_9': ['C11'], 'C08_8': ['C14'], 'C08_9': ['C11'], 'C10_7': ['C05'], 'C10_9': ['C03'], 'C13_9': ['C19'], 'C14_8': ['C11'], 'C11_7': ['C14'], 'C12_9': ['C15'], 'C03_10': ['C15'], 'C03_11': ['C15'], 'C03_12': ['C10'], 'C10_10': ['C03'], 'C11_10': ['C15'], 'C11_11': ['C15'], 'C11_12': ['C15'], 'C20_11': ['C11'], 'C20_12': ['C15'], 'C01_10': ['C15'], 'C02_10': ['C10'], 'C02_11': ['C15'], 'C02_12': ['C15'], 'C12_10': ['C15'], 'C12_12': ['C15'], 'C16_12': ['C15'], 'C04_11': ['C16'], 'C05_10': ['C03'], 'C05_11': ['C03'], 'C13_10': ['C15'], 'C13_11': ['C10'], 'C18_10': ['C03'], 'C18_11': ['C15'], 'C08_10': ['C11', 'C20'], 'C01_14': ['C11', 'C20'], 'C02_13': ['C15'], 'C10_14': ['C03'], 'C14_14': ['C13'], 'C11_13': ['C14'], 'C04_13': ['C06'], 'C04_14': ['C02', 'C01'], 'C03_13': ['C11'], 'C03_14': ['C05'], 'C12_13': ['C05'], 'C20_13': ['C11'], 'C20_14': ['C15', 'C01'], 'C18_14': ['C19'], 'C10_16': ['C03', 'C04'], 'C10_15': ['C08'], 'C12_15': ['C05']}
 
 
 def sh(cmd, **kw):
